@@ -172,13 +172,16 @@ func vC13ReadyVariants(t *testing.T, out *vEmitter) {
 		silence     bool
 		ping, ready string
 		gcpHC       bool
+		agent       string
 	}
 	for _, v := range []variant{
-		{"silence-ping", true, "", "", false},
-		{"silence-ping-renamed", true, "/healthz", "/readyz", false},
-		{"renamed", false, "/healthz", "/readyz", false},
-		{"silence-ping-gcp", true, "", "", true},
-		{"ready-under-ping", true, "/ping", "/ping/ready", false},
+		{"default", false, "", "", false, ""},
+		{"silence-ping", true, "", "", false, ""},
+		{"silence-ping-renamed", true, "/healthz", "/readyz", false, "probe-agent/1"},
+		{"renamed", false, "/healthz", "/readyz", false, ""},
+		{"silence-ping-gcp", true, "", "", true, "probe-agent/1"},
+		{"gcp", false, "", "", true, ""},
+		{"ready-under-ping", true, "/ping", "/ping/ready", false, ""},
 	} {
 		v := v
 		e := vNewEnv(t, vEnvCfg{oidc: true, redis: true, mod: func(o *options.Options) {
@@ -190,7 +193,9 @@ func vC13ReadyVariants(t *testing.T, out *vEmitter) {
 				o.ReadyPath = v.ready
 			}
 			o.GCPHealthChecks = v.gcpHC
+			o.PingUserAgent = v.agent
 		}})
+		vC13ProbeGrid(out, e, v.name)
 		readyPath := e.opts.ReadyPath
 		for _, down := range []bool{false, true} {
 			e.redis.ResetOps()
@@ -315,6 +320,64 @@ func vC13Observe(out *vEmitter, e *vEnv, scenario string, plan []vFaultSpec, res
 						out.Violation("store-fault/sign-out-success-while-session-stored", "sign-out reported success while the stored session is still loadable",
 							map[string]interface{}{"fault": vFaultNames[faultOf[op.Idx]]})
 					}
+				}
+			}
+		}
+	}
+}
+
+// vC13ProbeGrid: every probe-looking path x User-Agent, with the store up and down, against the model of the probe
+// handlers (Model/Probe.v): who answers is a function of the configured paths / agents, the escaped request path and the
+// agent; only the readiness check consults the store.
+func vC13ProbeGrid(out *vEmitter, e *vEnv, variant string) {
+	o := e.opts
+	paths := []string{o.PingPath, o.ReadyPath, "/ping", "/ready", "/healthz", "/readyz", "/liveness_check", "/readiness_check", "/ready/", "/READY", "/%72eady",
+		"/ping/ready", o.ReadyPath + "?x=1", o.PingPath + "/", "/other", "/"}
+	agents := []string{"", "kube-probe/1.29", "GoogleHC/1.0", "probe-agent/1", "googlehc/1.0"}
+	for _, down := range []bool{false, true} {
+		for _, p := range paths {
+			for _, ua := range agents {
+				e.redis.ResetOps()
+				if down {
+					e.redis.mu.Lock()
+					for k := 0; k < 8; k++ {
+						e.redis.faults[k] = vErrBefore
+					}
+					e.redis.mu.Unlock()
+				}
+				b := e.newBrowser("https://app.example.com")
+				b.deadline = 400 * time.Millisecond
+				var hs [][2]string
+				if ua != "" {
+					hs = append(hs, [2]string{"User-Agent", ua})
+				}
+				res := b.do("GET", p, hs, "")
+				ops := e.redis.Ops()
+				e.redis.ResetOps()
+				req, err := vRawRequest(vBuildRaw("GET", p, "app.example.com", nil, ""))
+				if err != nil {
+					continue
+				}
+				pinged := false
+				for _, op := range ops {
+					if op.Kind == "ping" {
+						pinged = true
+					}
+				}
+				obs := "pass"
+				switch {
+				case res.Status == 200 && res.Body == "OK" && !pinged:
+					obs = "alive"
+				case res.Status == 200 && res.Body == "OK" && pinged:
+					obs = "ready"
+				case res.Status == 500 && strings.HasPrefix(res.Body, "error:"):
+					obs = "notready"
+				}
+				out.Case("probe/"+variant, down, vY(obs), vL("probe", vS(o.PingPath), vS(o.ReadyPath), vS(o.PingUserAgent), vBool(o.GCPHealthChecks),
+					vBool(!down), vS(req.URL.EscapedPath()), vS(ua)))
+				out.Stat("probe_grid_runs", 1)
+				if res.Panic != nil {
+					out.Violation("store-fault/panic", fmt.Sprintf("a probe request panicked: %v", res.Panic), map[string]interface{}{"variant": variant, "path": p})
 				}
 			}
 		}
